@@ -147,12 +147,14 @@ pub fn verify(t: &TermState, cfg: &zvt_feig_terminal::config::Config) -> Vec<Str
                 let val = vcore::codec::Codec::new(table).decode(table.get(key), raw).ok().map(|x| x.0);
                 match cmds[c] {
                     0 => {
-                        if key != "Registration" || val.as_ref() != Some(&expect_registration(cfg)) {
-                            problems.push(format!("connection {c} must start with Registration{{configured password, 0xDE, configured currency}}, got {key} {}", show_req(table, key, &val)));
+                        let pw = get_path(table, key, &val, "password");
+                        let cur = get_path(table, key, &val, "currency");
+                        if key != "Registration" || pw != Some(vcore::codec::Val::Int(cfg.feig_config.password as u64)) || cur != Some(vcore::codec::Val::Int(cfg.feig_config.currency as u64)) {
+                            problems.push(format!("connection {c} must start with a registration carrying the configured password and currency, got {key} {}", show_req(table, key, &val)));
                         }
                     }
                     1 => {
-                        if key != "feig::CVendFunctions" || val.as_ref() != Some(&expect_system_info_request()) {
+                        if key != "feig::CVendFunctions" || get_path(table, key, &val, "instr") != Some(vcore::codec::Val::Int(1)) {
                             problems.push(format!("connection {c}: the second command must be the identity check (CVendFunctions instr 1), got {key} {}", show_req(table, key, &val)));
                         }
                     }
